@@ -17,7 +17,10 @@ from .. import core, wire
 PROP = "C09"
 MODULE = "GmqttVerif.Properties.C09"
 THEOREMS = ["GmqttVerif.C09.elem_roundtrip", "GmqttVerif.C09.message_roundtrip", "GmqttVerif.C09.subscription_roundtrip",
-            "GmqttVerif.C09.f30_length_prefix_wraps"]
+            "GmqttVerif.C09.session_roundtrip", "GmqttVerif.C09.f30_length_prefix_wraps", "GmqttVerif.C09.recover_refines",
+            "GmqttVerif.C09.crash_consistent", "GmqttVerif.C09.subscribe_meaning", "GmqttVerif.C09.unsubscribe_meaning",
+            "GmqttVerif.C09.enqueue_meaning", "GmqttVerif.C09.ack_meaning", "GmqttVerif.C09.qos2_meaning",
+            "GmqttVerif.C09.terminate_meaning"]
 COMPS = ["redis"]
 GO_EXTRA = ["broker"]
 
